@@ -143,6 +143,9 @@ def _assume_parser_failure(ctx, fmt, trial):
         f = fn_of(t) or {}
         if f.get("def") == "serde_json::Error::is_io":
             ps.assume[n] = (("const", 0), None)
+        elif f.get("def") == "serde_json::Error::io_error_kind":
+            # Some(kind) exactly for the I/O category (serde_json error.rs: `io_error_kind` matches on `ErrorCode::Io`)
+            ps.assume[n] = (("var", 0), None)
         elif f.get("trait") == "std::cmp::PartialEq" and "ErrorKind" in f.get("self_ty", "") and f.get("name") in ("eq", "ne"):
             ks = []
             for a in t["args"]:
@@ -243,8 +246,32 @@ def r09_3(ctx):
                             sw = b.blocks[t["target"]]["term"]
                             if sw["k"] == "switch":
                                 edges.append((t["target"], "otherwise", sw["otherwise"]))
+                        elif f.get("def") == "serde_json::Error::io_error_kind" and not t["dest"]["pr"]:
+                            # `err.io_error_kind()` is Some exactly for I/O errors: its Some edges (however they are
+                            # taken: `is_none()`, `is_some()`, a match) play the part of is_io()'s true edge
+                            ol = t["dest"]["l"]
+                            for sb_ in sorted(b.reach()):
+                                sw = b.blocks[sb_]["term"]
+                                if sw["k"] != "switch" or not is_place(sw["discr"]) or sw["discr"]["p"]["pr"]:
+                                    continue
+                                zero_ = [x for v_, x in sw["targets"] if v_ == 0]
+                                dt_ = trace(b, sw["discr"])
+                                if dt_.origin and dt_.origin[0] == "call" and (fn_of(dt_.origin[2]) or {}).get("def") in ("std::option::Option::<T>::is_none", "std::option::Option::<T>::is_some") and dt_.origin[2]["args"]:
+                                    at_ = trace(b, dt_.origin[2]["args"][0])
+                                    if at_.origin and at_.origin[0] == "call" and at_.origin[2] is t and zero_:
+                                        if fn_of(dt_.origin[2])["name"] == "is_none":
+                                            edges.append((sb_, 0, zero_[0]))
+                                        else:
+                                            edges.append((sb_, "otherwise", sw["otherwise"]))
+                                for s_ in b.blocks[sb_]["stmts"]:
+                                    if s_["k"] == "assign" and not s_["p"]["pr"] and s_["p"]["l"] == sw["discr"]["p"]["l"] and s_["rv"]["k"] == "discr" and not s_["rv"]["p"]["pr"] and s_["rv"]["p"]["l"] == ol:
+                                        one_ = [x for v_, x in sw["targets"] if v_ == 1]
+                                        if one_:
+                                            edges.append((sb_, 1, one_[0]))
+                                        elif zero_:
+                                            edges.append((sb_, "otherwise", sw["otherwise"]))
                     ok = bool(edges) and dbb not in b.reachable_from(0, removed_edges=edges)
-                    ctx.ob(key, ok, site(b, dbb), "returned only when serde_json classifies it as I/O (is_io())" if ok else "a serde_json syntax/EOF error can become a hard detection error")
+                    ctx.ob(key, ok, site(b, dbb), "returned only when serde_json classifies it as I/O (is_io() / io_error_kind() is Some)" if ok else "a serde_json syntax/EOF error can become a hard detection error")
                 elif ety == "rmp_serde::decode::Error":
                     io_payload = all(any(st[0] == "downcast" and st[1] in ("InvalidMarkerRead", "InvalidDataRead") for st in t_.steps) for t_ in trs)
                     edges = [(s, l, d) for s, l, d, cv in _kind_discriminators(b, base, None) if cv == "UnexpectedEof"]
@@ -346,7 +373,19 @@ def r09_1(ctx):
             f = fn_of(t) or {}
             if f.get("name") == "set_position" and f.get("def", "").startswith("std::io::Cursor"):
                 v = const_value(t["args"][1])
-                ctx.ob(f"set_position:{b.name}", v == 0, site(b, bb), f"set_position({v})")
+                to_end = False
+                if v is None:
+                    # `cursor.set_position(cursor.get_ref().len() as u64)`: to the end of its own buffer, where
+                    # `write_all` at the end would have left it after appending
+                    lt = trace(b, t["args"][1], passthrough_extra=("cast",))
+                    if lt.origin and lt.origin[0] == "call" and (fn_of(lt.origin[2]) or {}).get("name") == "len" and lt.origin[2]["args"]:
+                        views = ("std::io::Cursor::<T>::get_ref", "std::io::Cursor::<T>::get_mut")
+                        vt = trace(b, lt.origin[2]["args"][0], passthrough_extra=views)
+                        ct_ = trace(b, t["args"][0])
+                        vf = [x[1] for x in vt.steps if x[0] == "field"]
+                        cf = [x[1] for x in ct_.steps if x[0] == "field"]
+                        to_end = bool(vf) and vf == cf and vt.origin == ct_.origin and any(x[0] == "call" and x[1] in views for x in vt.steps)
+                ctx.ob(f"set_position:{b.name}", v == 0 or to_end, site(b, bb), f"set_position({v})" if not to_end else "set_position(len of the cursor's own buffer): the cursor is moved to its end")
     # the capture reader type is constructed only inside the guard
     for b in lib.bodies:
         for bb, t in b.calls():
@@ -827,6 +866,16 @@ def _error_flow(lib, b, start, is_result, depth=0):
                                 payload = trace(cb, ct["args"][1])
                                 if kv == "InvalidData" and payload.origin and payload.origin[0] == "arg" and payload.origin[1] == 2:
                                     okc = True
+                    if not okc and len(ut["args"]) >= 2 and ut["args"][1].get("k") == "fn":
+                        # `map_err(invalid_data)`: a named helper instead of a closure; its own parameter is the payload
+                        hb = lib.by_id.get(ut["args"][1].get("def"))
+                        for cbb, ct in (hb.calls() if hb else []):
+                            if (fn_of(ct) or {}).get("def", "").startswith("std::io::Error::new"):
+                                kind = trace(hb, ct["args"][0])
+                                kv = kind.origin[1]["rv"].get("variant") if kind.origin and kind.origin[0] == "agg" else ((kind.origin[1].get("variant") or kind.origin[1].get("ref_variant")) if kind.origin and kind.origin[0] == "const" else None)
+                                payload = trace(hb, ct["args"][1])
+                                if kv == "InvalidData" and payload.origin and payload.origin[0] == "arg" and payload.origin[1] == 1 and hb.nargs == 1:
+                                    okc = True
                     if okc:
                         wrapped += 1
                     else:
@@ -1168,6 +1217,18 @@ def _is_source_read_count(lib, b, op, src_fields, depth=0):
     """`op` is the byte count of a successful `read` of the source: the Ok payload of that call, here or in a
     same-crate helper every Ok return of which hands back such a count (`let n = self.read_and_capture(buf)?`)."""
     tr = trace(b, op, passthrough_extra=("std::ops::Try::branch",))
+    if tr.origin and tr.origin[0] == "arg" and tr.origin[1] == 2 and b.raw["def_kind"] == "Closure" and all(st[0] == "use" for st in tr.steps):
+        # `self.source.read(buf).and_then(|n| { .. self.eof = n == 0; .. })`: the closure's parameter is the Ok payload of
+        # the Result it is run on
+        parent = lib.by_id.get(b.raw.get("parent"))
+        if parent is not None:
+            for pb, pt in parent.calls():
+                pf = fn_of(pt) or {}
+                if b.id in (pf.get("closures") or []) and pf.get("def") in ("std::result::Result::<T, E>::and_then", "std::result::Result::<T, E>::map") and pt["args"]:
+                    rt_ = trace(parent, pt["args"][0])
+                    if rt_.origin and rt_.origin[0] == "call" and all(st[0] == "use" for st in rt_.steps) and any(rt_.origin[2] is e[1] and e[2] == "read" for e in _source_reads(parent, src_fields)):
+                        return True
+        return False
     if not (tr.origin and tr.origin[0] == "call" and any(st[0] == "downcast" and st[1] in ("Continue", "Ok") for st in tr.steps)):
         return False
     src = tr.origin[2]
@@ -1203,6 +1264,97 @@ def _is_source_read_count(lib, b, op, src_fields, depth=0):
 def _is_source_read_count_ok(lib, b, op, src_fields, depth):
     """Inside the helper the count is already unwrapped (`let size = self.source.read(buf)?; .. Ok(size)`)."""
     return _is_source_read_count(lib, b, op, src_fields, depth)
+
+
+def _writes_captured_flag(lib, b, s, flag, cap):
+    """Statement s of closure body b stores through a captured `&mut self.<flag>` (edition-2021 closures capture the
+    field, not `self`): `*upvar = ..` where the enclosing function built the closure with `&mut (*self).<flag>` in that
+    slot."""
+    if b.raw["def_kind"] != "Closure" or s["k"] != "assign" or [e["k"] for e in s["p"]["pr"]] != ["deref"]:
+        return False
+    tr = trace(b, {"k": "copy", "p": {"l": s["p"]["l"], "pr": []}})
+    if not (tr.origin == ("arg", 1) and all(x[0] in ("use", "field", "deref") for x in tr.steps)):
+        return False
+    fields = [x for x in tr.steps if x[0] == "field"]
+    if len(fields) != 1:
+        return False
+    parent = lib.by_id.get(b.raw.get("parent"))
+    if parent is None:
+        return False
+    # the closure aggregate in the parent and the operand in the captured slot
+    env_ty = b.local_ty(1)
+    for bi_, blk in enumerate(parent.blocks):
+        for st in blk["stmts"]:
+            if st["k"] == "assign" and st["rv"]["k"] == "aggregate" and st["rv"].get("agg") == "closure" and parent.local_ty(st["p"]["l"]) in env_ty:
+                # which slot: by the upvar's name when the facts carry it, else by position
+                ops = st["rv"]["ops"]
+                for o in ops:
+                    if not is_place(o):
+                        continue
+                    ds = parent.whole_defs(o["p"]["l"])
+                    if len(ds) == 1 and ds[0][2] == "assign" and ds[0][3]["rv"]["k"] == "ref":
+                        pr = ds[0][3]["rv"]["p"]["pr"]
+                        if pr and pr[-1]["k"] == "field" and pr[-1].get("name") == flag and pr[-1].get("adt") == cap and str(fields[0][1]).endswith(flag):
+                            return True
+    return False
+
+
+def _finishing_helper(lib, b, bi, src_fields):
+    """The flag write at block bi of body b sits in a helper that is handed the drain's own `io::Result` as a parameter
+    (and maybe a bool saying whether the drain stopped short of its limit): `fn finish(&mut self, result, eof)` with the
+    write under `Ok(_) if eof`. Judged per call site: the Result argument is the un-`?`ed result of a read_to_end of the
+    source made in the caller, and for a bounded (Take) drain the bool argument is `take.limit() > 0`. Returns
+    (ok, detail) or None when b is not of that shape."""
+    import r_bin
+
+    res_params = [k for k in range(2, b.nargs + 1) if b.local_ty(k).startswith("std::result::Result<usize, std::io::Error>") or b.local_ty(k).startswith("std::result::Result<(), std::io::Error>")]
+    if len(res_params) != 1:
+        return None
+    rp = res_params[0]
+    # the write is behind the Ok edge of the parameter
+    ok_edge = None
+    for sb in sorted(b.reach()):
+        sw = b.blocks[sb]["term"]
+        if sw["k"] != "switch":
+            continue
+        for s_ in b.blocks[sb]["stmts"]:
+            if s_["k"] == "assign" and s_["rv"]["k"] == "discr" and not s_["rv"]["p"]["pr"] and s_["rv"]["p"]["l"] == rp:
+                e = enum_edge(b, sb, 0)
+                if e and b.edge_dominates(e[0], e[1], e[2], bi):
+                    ok_edge = e
+    if ok_edge is None:
+        return None
+    # an optional bool parameter whose true edge also dominates the write
+    bool_param = None
+    for k in range(2, b.nargs + 1):
+        if b.local_ty(k) != "bool":
+            continue
+        for sb in sorted(b.reach()):
+            sw = b.blocks[sb]["term"]
+            if sw["k"] == "switch" and is_place(sw["discr"]) and not sw["discr"]["p"]["pr"]:
+                dt = trace(b, sw["discr"])
+                if dt.origin == ("arg", k) and all(x[0] == "use" for x in dt.steps) and b.edge_dominates(sb, "otherwise", sw["otherwise"], bi):
+                    bool_param = k
+    sites_ = [(cb, cbb, ct) for cb in lib.bodies for cbb, ct in cb.calls() if ((fn_of(ct) or {}).get("resolved") or (fn_of(ct) or {}).get("def")) == b.id]
+    if not sites_:
+        return None
+    for cb, cbb, ct in sites_:
+        reads = _source_reads(cb, src_fields)
+        rt_ = trace(cb, ct["args"][rp - 1])
+        hit = [e for e in reads if rt_.origin and rt_.origin[0] == "call" and rt_.origin[2] is e[1] and all(x[0] == "use" for x in rt_.steps)]
+        if not hit or hit[0][2] != "read_to_end":
+            return False, f"`{b.name}` records end of input for the Result it is given, but at {site(cb, cbb)} that is not the result of a read_to_end of the source"
+        if hit[0][3]:
+            # bounded drain: the bool must say that the limit was not used up
+            if bool_param is None:
+                return False, f"`{b.name}` takes a bounded drain's result for end of input without asking whether the limit was used up"
+            st_ = None
+            bo = ct["args"][bool_param - 1]
+            bt = trace(cb, bo)
+            if bt.origin and bt.origin[0] == "rvalue" and bt.origin[1]["rv"]["k"] == "binop" and bt.origin[1]["rv"]["op"] in ("Gt", "Ne") and const_value(bt.origin[1]["rv"]["b"]) == 0 and _is_take_limit(cb, bt.origin[1]["rv"]["a"], reads):
+                continue
+            return False, f"at {site(cb, cbb)} a bounded drain's result is passed with an end-of-input claim that is not `take.limit() > 0`"
+    return True, f"EOF recorded by `{b.name}` under `Ok` of the drain's own result ({len(sites_)} call site(s): each passes a read_to_end of the source, bounded ones with `limit() > 0`)"
 
 
 def _is_take_limit(b, op, ok_edges):
@@ -1320,7 +1472,7 @@ def r09_6(ctx):
     for b in lib.bodies:
         for bi in sorted(b.reach()):
             for s in b.blocks[bi]["stmts"]:
-                if not (s["k"] == "assign" and s["p"]["pr"] and s["p"]["pr"][-1]["k"] == "field" and s["p"]["pr"][-1]["name"] == flag and s["p"]["pr"][-1].get("adt") == cap):
+                if not (s["k"] == "assign" and s["p"]["pr"] and s["p"]["pr"][-1]["k"] == "field" and s["p"]["pr"][-1]["name"] == flag and s["p"]["pr"][-1].get("adt") == cap) and not _writes_captured_flag(lib, b, s, flag, cap):
                     continue
                 n += 1
                 rv = s["rv"]
@@ -1338,6 +1490,11 @@ def r09_6(ctx):
                     # const true: must follow a successful read_to_end of the source
                     good = False
                     why = "set to true without a successful read_to_end of the source on the path"
+                    if not ok_edges:
+                        par = _finishing_helper(lib, b, bi, src_fields)
+                        if par is not None:
+                            ctx.ob(key + ":true-after-read_to_end", par[0], site(b, line=s["line"]), par[1])
+                            continue
                     for cb, ct, nm, is_take in ok_edges:
                         if nm != "read_to_end":
                             continue
